@@ -11,6 +11,9 @@ import (
 	"go.etcd.io/etcd/clientv3"
 	"google.golang.org/grpc/metadata"
 
+	"github.com/tikv/pd/server/election"
+
+	"pdverif/internal/etcdx"
 	"pdverif/internal/res"
 	"pdverif/internal/srv15"
 )
@@ -181,4 +184,78 @@ func servedAfterResetProbe(R *res.Result) {
 	if sp, err := x.S.GetStorage().LoadGCSafePoint(); err == nil && sp == 77 {
 		served("UpdateGCSafePoint:stored", "the GC safe point 77 is in the storage")
 	}
+}
+
+// neighbourRecordProbe: the leader records of two Local TSO Allocators whose dc-location names are prefixes of each other
+// (dc-1, dc-10) live side by side below the root path. Whatever one leadership does with its own record - campaign, delete,
+// reset - the neighbour's record and the neighbour's view of its leadership stay as they are.
+func neighbourRecordProbe(R *res.Result) {
+	e, err := etcdx.Start()
+	if err != nil {
+		R.Notes = append(R.Notes, "neighbour-record probe skipped: "+err.Error())
+		return
+	}
+	defer e.Close()
+	admin, _, err := e.NewClient()
+	if err != nil {
+		return
+	}
+	cliA, _, err := e.NewClient()
+	if err != nil {
+		return
+	}
+	cliB, _, err := e.NewClient()
+	if err != nil {
+		return
+	}
+	root := "/c03/neighbours"
+	long := election.NewLeadership(cliA, root+"/dc-10", "probe dc-10")
+	short := election.NewLeadership(cliB, root+"/dc-1", "probe dc-1")
+	if err := long.Campaign(60, "member of dc-10"); err != nil {
+		return
+	}
+	if err := short.Campaign(60, "member of dc-1"); err != nil {
+		return
+	}
+	value := func(k string) string {
+		ctx, cancel := context.WithTimeout(context.Background(), 5*time.Second)
+		defer cancel()
+		r, err := admin.Get(ctx, k)
+		if err != nil || len(r.Kvs) == 0 {
+			return ""
+		}
+		return string(r.Kvs[0].Value)
+	}
+	R.Count("neighbour-record:probed")
+	check := func(after string) bool {
+		if v := value(root + "/dc-10"); v != "member of dc-10" {
+			R.Violate("C03:record-of-another-leadership-removed:key-is-a-prefix-of-the-neighbours-key",
+				fmt.Sprintf("the leaderships of dc-1 and dc-10 both held their records; after %s of dc-1 the record of dc-10 reads %q", after, v),
+				map[string]interface{}{"after": after, "record_of_dc-10": v})
+			return false
+		}
+		return true
+	}
+	if err := short.DeleteLeaderKey(); err != nil {
+		R.Notes = append(R.Notes, "neighbour-record probe: DeleteLeaderKey: "+err.Error())
+	}
+	if !check("DeleteLeaderKey") {
+		return
+	}
+	if v := value(root + "/dc-1"); v != "" {
+		R.Violate("C03:own-record-not-removed-by-DeleteLeaderKey", fmt.Sprintf("DeleteLeaderKey of dc-1 returned but its record still reads %q", v), nil)
+		return
+	}
+	if err := short.Campaign(60, "member of dc-1"); err != nil {
+		return
+	}
+	short.Reset()
+	time.Sleep(100 * time.Millisecond)
+	if !check("Reset") {
+		return
+	}
+	if !long.Check() {
+		R.Violate("C03:record-of-another-leadership-removed:key-is-a-prefix-of-the-neighbours-key", "after Reset of dc-1 the leadership of dc-10 reports an invalid lease", nil)
+	}
+	long.Reset()
 }
